@@ -37,6 +37,10 @@ def main():
             checks = sys.argv[i + 1].split(",")
         if a == "--name":
             name = sys.argv[i + 1]
+    demo_override = None
+    for i, a in enumerate(sys.argv):
+        if a == "--demo":
+            demo_override = sys.argv[i + 1]
     meta = json.load(open(os.path.join(src, "meta.json")))
     patch = os.path.join(src, "patch.diff")
     wt = f"/tmp/confirm_{name}"
@@ -57,7 +61,7 @@ def main():
                         os.makedirs(os.path.dirname(dst), exist_ok=True)
                         shutil.copy(os.path.join(root, f), dst)
                         demo_files.append(rel)
-        demo_cmd = meta.get("demo", "")
+        demo_cmd = demo_override or meta.get("demo", "")
         result["demo_cmd"] = demo_cmd
         result["demo_files"] = demo_files
         rc0, out0 = sh(demo_cmd, cwd=wt, timeout=600)
